@@ -3,12 +3,13 @@
 Trace invariant over (condition evaluations, activation / registration / cancel / force flag transitions, body child
 starts, block-end events, request log) of the real interpreter, see DESIGN.md C04.
 
-Observation (all attached from here, nothing in /repo or the shared rig is edited):
+Observation (attached from the harness, nothing in /repo or the shared rig is edited; see opv/rigs/interrupt_hooks.py):
 * engine_rig descriptors (started, completed, activated, interrupt_registered, block_ended, run_count, ...)
 * two more descriptors of the same kind for Node._cancelled / Node._forced (accepted cancel / force = flag goes True,
   a reset of the flag by reset_runtime_state is visible as well)
-* wrappers around PInterpreter._evaluate_condition / _register_interrupt / _unregister_interrupt which append
-  to the same TRACE list, so that the order of everything is the order of execution.
+* wrappers around PInterpreter._evaluate_condition / _register_interrupt / _unregister_interrupt and h_enter/h_exit
+  brackets around every step of an interrupt handler; all of them append to the same TRACE list, so that the order
+  of everything is the order of execution and it is known in whose handler an event happened.
 """
 from __future__ import annotations
 
@@ -33,16 +34,22 @@ RULE = ("(a) focus templates: one Watch/Alarm under 0-3 wrappers (Block / always
         "tick +(-2..+2). distinct = method shape hash x trajectory kind x request signature; non-trivial = at least "
         "one body line started, or a cancel was accepted, or a block ended with a registered Watch/Alarm inside")
 ASSUMPTIONS = [
-    "'runs' is read as: a line of the body (direct child of the Watch/Alarm) starts; for 'after the block that "
-    "contains it has ended' any line below the Watch/Alarm counts",
-    "'after a tick in which its condition evaluated true': a True result of PInterpreter._evaluate_condition for that "
-    "node since its latest registration (re-arm for Alarm), or an accepted force (Node._forced) that is still set",
-    "accepted cancel = Node._cancelled went True through Engine.cancel_instruction; a reset of the flag by the re-arm "
-    "of an enclosing Alarm / a new macro invocation starts a new instance of the inner Watch/Alarm",
+    "'runs' is read as: a line of the body (direct child of the Watch/Alarm) is started by somebody other than that "
+    "line's own interrupt handler; a run of the body begins with the first such start after a registration or reset "
+    "of the Watch/Alarm. For 'after the block that contains it has ended' any line below the Watch/Alarm counts, but "
+    "only if the line is executed after the start (a bare started flag in the End-block tick is counted, not judged)",
+    "'only after a tick in which its condition evaluated true' / 'once per activation': every run of the body needs an "
+    "activation of its own - a True result of PInterpreter._evaluate_condition or an accepted force (Node._forced) - "
+    "that happened after the last reset of the node (Alarm re-arm, reset by an enclosing Alarm / macro invocation) "
+    "and was not used up by an earlier run of the body; an evaluation made by a handler that survived the reset of "
+    "its enclosing scope is accepted (lenient reading)",
+    "a Watch outside Alarm/macro bodies may run its body once per run of the method; inside such a scope once per "
+    "reset by that scope (each invocation of the scope has its own Watch)",
+    "accepted cancel = Node._cancelled went True through Engine.cancel_instruction and has not been reset since",
     "Alarm re-arm is asserted as bounded liveness with K=8 engine ticks and only for Alarms whose ancestors are "
     "Program/Block nodes (no enclosing Watch/Alarm/Macro), while the run is Running and not in error",
     "the FT01 value seen by an evaluation in tick T is the scripted reading of tick T (no Simulate in the grammar)",
-    "observation through data descriptors / method wrappers installed from the harness",
+    "observation through data descriptors / method wrappers installed from the harness (opv/rigs/interrupt_hooks.py)",
 ]
 REQUIRED = {"eval_events": 10000, "cond_crosschecks": 10000, "activations": 1500, "body_child_starts": 2000,
             "body_runs": 1000, "cancel_accepted": 100, "cancel_effective_checks": 50, "force_accepted": 100,
